@@ -73,8 +73,11 @@ func (c C12) Run(t *tape.Tape, opt core.RunOpt) (res core.Result) {
 	cfg := sched.DrawConfig(t)
 	cfg.MaxSteps = 400000
 	s := sched.New(t, cfg)
-	strat := []workload.Strategy{workload.StratReflect, workload.StratReflect, workload.StratReflect, workload.StratInterface, workload.StratAny}[t.Draw(5)]
+	strat := []workload.Strategy{workload.StratReflect, workload.StratReflect, workload.StratMixed, workload.StratInterface, workload.StratAny}[t.Draw(5)]
 	q := workload.GenZoo(t)
+	if strat == workload.StratMixed {
+		workload.DrawMixed(t, q)
+	}
 	z, err := workload.NewZoo(q, strat)
 	if err != nil {
 		res.Fatal = "cannot build the zoo root: " + err.Error()
@@ -89,8 +92,14 @@ func (c C12) Run(t *tape.Tape, opt core.RunOpt) (res core.Result) {
 	// a small pool of requests, so that tasks collide on the same fields
 	pool := make([]*workload.Request, 1+t.Draw(4))
 	pathMode := t.Bool(1, 2)
+	// A union member is found by the Go type of the object: on a mixed root the
+	// union-typed fields are only used when every member type is raw (an INode
+	// has one Go type for everything and is not a member of any union; what ggql
+	// answers for such an object is outside the property: the data is not typed
+	// by the schema).
+	noUnion := strat == workload.StratMixed && !(q.Raw["Dog"] && q.Raw["Bird"] && q.Raw["Keeper"] && q.Raw["Cell"])
 	for i := range pool {
-		pool[i] = workload.GenRequest(t, workload.ReqOpt{Strat: strat, MultiOp: !pathMode && t.Bool(1, 4), Introspection: !pathMode,
+		pool[i] = workload.GenRequest(t, workload.ReqOpt{Strat: strat, MultiOp: !pathMode && t.Bool(1, 4), Introspection: !pathMode, NoUnion: noUnion,
 			VarInLiteral: strat != workload.StratReflect, ShuffleArgs: true, MaxDepth: 2 + t.Draw(3), PathMode: pathMode})
 	}
 	base := make([]string, len(pool))
